@@ -52,11 +52,11 @@ ENGINE_STREAMS = {
     "C05": [("C01", 30, 1500, 40), ("faults", 30, 1500, 40), ("reject", 30, 1000, 40), ("wide", 20, 400, 30)],
     "C06": [("C01", 40, 1500, 40), ("churn", 40, 1000, 60), ("wide", 20, 400, 30)],
     "C07": [("faults", 60, 2000, 40), ("binds", 30, 1000, 40), ("reject", 30, 1000, 40)],
-    "C08": [("binds", 100, 3000, 40)],
-    "C10": [("C01", 50, 1500, 40), ("faults", 50, 1500, 40)],
+    "C08": [("binds", 70, 3000, 40), ("inner", 30, 1000, 40)],
+    "C10": [("C01", 30, 1500, 40), ("faults", 30, 1500, 40), ("inner", 40, 1500, 40)],
     "C11": [("cutoffs", 100, 3000, 40)],
     "C12": [("midset", 60, 1500, 40), ("unobs", 40, 1500, 40)],
-    "C13": [("C01", 50, 1500, 40), ("midset", 50, 1500, 40)],
+    "C13": [("C01", 40, 1500, 40), ("midset", 30, 1500, 40), ("inner", 30, 1500, 40)],
 }
 
 
